@@ -654,5 +654,96 @@ class AsyncStraddle(Suite):
     confirm_hang = staticmethod(confirm_hang(run_async))
 
 
-SUITES = [SyncEnum(), AsyncEnum(), SyncRandom(), AsyncRandom(), SyncStraddle(), AsyncStraddle()]
+def _decode_history(data, kind):
+    """Structure-aware decoding of fuzzer bytes into a reader case (a tiny data provider)."""
+    if len(data) < 6:
+        return None
+    b = list(data)
+    cs = 1 + b[0] % 6
+    delims = [d for d in _DELIMS if len(d) <= cs]
+    nops = 1 + b[1] % 6
+    chunks = [b[2] % 8, b[3] % 8] if kind == 'sync' else [1 + b[2] % 7, b[3] % 8]
+    md = (0, 0, 2, -1)[b[4] % 4] if kind == 'sync' else 0
+    pos = 5
+    ops = []
+
+    def take():
+        nonlocal pos
+        v = b[pos] if pos < len(b) else 0
+        pos += 1
+        return v
+
+    def one(depth):
+        t = take() % (9 if depth else 11)
+        if t == 0:
+            return ['read', take() % 12 - 1]
+        if t == 1:
+            return ['peek', take() % 10 - 1]
+        if t in (2, 3):
+            return ['read_until', delims[take() % len(delims)], take() % 14 - 1, bool(take() % 2)]
+        if t == 4:
+            return ['pipe_until', delims[take() % len(delims)], bool(take() % 2)]
+        if t == 5:
+            return ['pipe']
+        if t == 6:
+            return ['exhaust']
+        if t == 7:
+            return ['readline', take() % 10 - 1] if kind == 'sync' else ['readall']
+        if t == 8:
+            return ['readlines', take() % 6 - 1] if kind == 'sync' else ['iter']
+        sub = [one(depth + 1) for _ in range(take() % 4)]
+        return ['delimit', delims[take() % len(delims)], sub]
+
+    for _ in range(nops):
+        ops.append(one(0))
+    alpha = b'ab-\n'
+    body = bytes(alpha[x % 4] for x in b[pos:pos + 48])
+    case = {'data': body, 'chunk_size': cs, 'chunks': chunks, 'ops': ops, 'maxlen_delta': md}
+    if kind == 'async':
+        case['trailing_empty'] = bool(b[4] % 2)
+    return case
+
+
+class SyncFuzz(Suite):
+    """Coverage-guided (Atheris) search over byte strings decoded into (chunk size, short-read pattern, operation
+    history with nested delimit(), data over {a b - \\n}); same cursor-model oracle; the sync reader is instrumented."""
+
+    name = 'sync_fuzz'
+    budget = {'quick': 0, 'thorough': 0}
+    fuzz_runs = {'quick': 8000, 'thorough': 1500000}
+    fuzz_shards = {'quick': 4, 'thorough': 8}
+    fuzz_max_len = 80
+    case_timeout = 20
+
+    def fuzz_decode(self, data):
+        return _decode_history(data, 'sync')
+
+    def run(self, case):
+        run_sync(case)
+        return classify(case, 'sync')
+
+    confirm_hang = staticmethod(confirm_hang(run_sync))
+
+
+class AsyncFuzz(Suite):
+    """Coverage-guided (Atheris) search, async reader (same decoding, explicit source chunking)."""
+
+    name = 'async_fuzz'
+    budget = {'quick': 0, 'thorough': 0}
+    fuzz_runs = {'quick': 4000, 'thorough': 600000}
+    fuzz_shards = {'quick': 4, 'thorough': 8}
+    fuzz_max_len = 80
+    case_timeout = 20
+
+    def fuzz_decode(self, data):
+        return _decode_history(data, 'async')
+
+    def run(self, case):
+        run_async(case)
+        return classify(case, 'async')
+
+    confirm_hang = staticmethod(confirm_hang(run_async))
+
+
+SUITES = [SyncEnum(), AsyncEnum(), SyncRandom(), AsyncRandom(), SyncStraddle(), AsyncStraddle(), SyncFuzz(), AsyncFuzz()]
 KNOWN = {}
